@@ -4,8 +4,8 @@ CONSTANTS
   K = 1
   MaxLen = 0
   Class = "canon"
-  MaxTree = 8
-  MinRem = 4
+  MaxTree = 4
+  MinRem = 3
 INIT InitTree
 NEXT NextTree
 INVARIANTS TypeTree TreeDisjoint
